@@ -286,11 +286,24 @@ def _skip_first(ctx: Ctx, f: FuncInfo, loop, comment_atom, blank_atom) -> None:
               f'{src(bad[0])[:50] if bad else ""!r} can run for a blank or comment line: such a line changes the result', bad[0] if bad else loop)
 
 
+def line_as_written(ctx: Ctx, rule: str, mp: FuncInfo, loop) -> None:
+    """What the loader classifies and stores is the line as written, with surrounding blanks removed and nothing else: every binding of the
+    working copy of the line (`stripped`) is `line.strip()`.  Cutting the line (inline comments, truncation) changes rule names, match
+    expressions and values that legitimately contain the cut marker."""
+    defs = [s for s in ast.walk(loop) if isinstance(s, (ast.Assign, ast.AugAssign, ast.AnnAssign)) and
+            any(isinstance(t, ast.Name) and t.id == 'stripped' for t in (s.targets if isinstance(s, ast.Assign) else [s.target]))]
+    bad = [s for s in defs if not (isinstance(s, ast.Assign) and src(s.value) in ('line.strip()', 'line.strip(" \\t\\r\\n")'))]
+    ctx.check(bool(defs) and not bad, rule, mp, 'line-as-written', 'the line that is classified and stored is line.strip(), nothing cut out of it',
+              f'{src(bad[0])[:70] if bad else ""!r} rewrites the line before it is classified: text after a `#` (or whatever is cut) disappears from rule names, match expressions and values '
+              f'(`[Parking Lot #B7]` becomes `[Parking Lot`, which the loader rejects)', bad[0] if bad else loop)
+
+
 def r4(ctx: Ctx, mp: FuncInfo, ps: FuncInfo) -> None:
     loop = _line_loop(ctx, mp)
     first = loop.body[0]
     ok = isinstance(first, ast.Assign) and src(first) == 'stripped = line.strip()'
     ctx.check(ok, 'C17.R4', mp, 'strip-first', 'each line is stripped first', f'line loop starts with {src(first)[:40]!r}', first)
+    line_as_written(ctx, 'C17.R4', mp, loop)
     _skip_first(ctx, mp, loop, ("startswith('#')", False), ('stripped', True))
     # every classifier test uses `stripped`
     tests = [s for s in loop.body if isinstance(s, ast.If)]
@@ -306,7 +319,13 @@ def r4(ctx: Ctx, mp: FuncInfo, ps: FuncInfo) -> None:
     _skip_first(ctx, ps, loop, ('COMMENT.match(line)', False), ('BLANK.match(line)', False))
     for rx in ('FILTER_DECL', 'DESCRIPTION_DECL', 'VARIABLE_DECL'):
         calls = [c for c in ast.walk(loop) if isinstance(c, ast.Call) and src(c.func) == f'{rx}.match']
-        ok = bool(calls) and all(src(c.args[0]) == 'line.strip()' for c in calls)
+        pfl = get_flow(ctx.proj, ps)
+
+        def stripped_line(e, at) -> bool:
+            # `line.strip()` itself or a local holding it
+            return any(leaf in ('loopvar:line', 'param:text') and 'call:strip' in ops for leaf, ops in pfl.leaf_paths(e, at)) and \
+                all('call:strip' in ops for leaf, ops in pfl.leaf_paths(e, at) if leaf == 'loopvar:line')
+        ok = bool(calls) and all(c.args and stripped_line(c.args[0], c) for c in calls)
         ctx.check(ok, 'C17.R4', ps, f'classify-stripped:{rx}', f'{rx} is matched against the stripped line', f'{rx} is matched against {[src(c.args[0]) for c in calls]}')
     ctx.check("header_match.group(1).strip()" in src(loop), 'C17.R4', ps, 'name-stripped', 'view names are stripped', 'view names keep surrounding blanks')
 
